@@ -5,12 +5,15 @@
     is a heap here: node ids, [subDirs] : name -> id, the root's directMap : path -> id.
 
       AddTimeBucket (catalog.go:163)     holds the root lock from start to end: [LCreate] = the whole call,
-                                         or [LCreateScan] (disk effects = Model/Catalog.add_time_bucket, then the
-                                         NewDirectory scan of the symbol) followed later by [LCreateInstall] (addSubdir)
-      RemoveTimeBucket (catalog.go:216)  NOT under the root lock: [LBegin] = the walk collecting tree[i];
-                                         [LStep] = one iteration of the bottom-up loop (removeDirFiles /
-                                         removeSubDir each take only that node's lock); the last [LStep] is the
-                                         final "if deleteMap[0]" block (which does lock the root)
+                                         or [LCreateScan] (takes the lock; disk effects = Model/Catalog.add_time_bucket,
+                                         then the NewDirectory scan of the symbol) followed by [LCreateInstall]
+                                         (addSubdir; releases the lock)
+      RemoveTimeBucket (catalog.go:233)  since "fix: RemoveTimeBucket holds the root lock" ALSO under the root lock:
+                                         [LBegin] takes it and walks the tree collecting tree[i]; [LStep] = one
+                                         iteration of the bottom-up loop; the last [LStep] is the final
+                                         "if deleteMap[0]" block and releases the lock
+      the root sync.RWMutex (writers)    [c_lock]: a label that needs the lock while another thread holds it does
+                                         not fire (the state is unchanged: the goroutine stays blocked)
       ListTimeBucketKeyNames             [hlist]
       NewDirectory(root) on the disk     Model/Catalog.new_directory
 
@@ -204,30 +207,43 @@ Inductive label :=
 | LBegin (tid : nat) (key : list byte)
 | LStep (tid : nat).
 
-Record cstate := mkC { c_world : world; c_heap : heap; c_threads : list (nat * dthread); c_pending : list (nat * pending) }.
+Record cstate := mkC { c_world : world; c_heap : heap; c_threads : list (nat * dthread); c_pending : list (nat * pending);
+                       c_lock : option nat (* the thread holding the root lock *) }.
+
+Definition lock_free (s : cstate) : bool := match c_lock s with None => true | Some _ => false end.
 
 Definition run_label (root : list byte) (s : cstate) (l : label) : cstate :=
   match l with
   | LCreate k y t =>
-      let '(w, p, _) := h_create_scan root (c_world s) (c_heap s) k y t in
-      mkC w (match p with Some p' => h_create_install (c_heap s) p' | None => c_heap s end) (c_threads s) (c_pending s)
+      if lock_free s then
+        let '(w, p, _) := h_create_scan root (c_world s) (c_heap s) k y t in
+        mkC w (match p with Some p' => h_create_install (c_heap s) p' | None => c_heap s end) (c_threads s) (c_pending s) None
+      else s
   | LCreateScan tid k y t =>
-      let '(w, p, _) := h_create_scan root (c_world s) (c_heap s) k y t in
-      mkC w (c_heap s) (c_threads s) (match p with Some p' => nset tid p' (c_pending s) | None => c_pending s end)
+      if lock_free s then
+        let '(w, p, _) := h_create_scan root (c_world s) (c_heap s) k y t in
+        match p with
+        | Some p' => mkC w (c_heap s) (c_threads s) (nset tid p' (c_pending s)) (Some tid)
+        | None => mkC w (c_heap s) (c_threads s) (c_pending s) None          (* error return: the deferred Unlock *)
+        end
+      else s
   | LCreateInstall tid =>
       match nget tid (c_pending s) with
       | Some p => mkC (c_world s) (h_create_install (c_heap s) p) (c_threads s)
-                      (filter (fun e => negb (Nat.eqb (fst e) tid)) (c_pending s))
+                      (filter (fun e => negb (Nat.eqb (fst e) tid)) (c_pending s)) None
       | None => s
       end
   | LBegin tid k =>
-      match d_begin (c_heap s) k with
-      | Some t => mkC (c_world s) (c_heap s) (nset tid t (c_threads s)) (c_pending s)
-      | None => s
-      end
+      if lock_free s then
+        match d_begin (c_heap s) k with
+        | Some t => mkC (c_world s) (c_heap s) (nset tid t (c_threads s)) (c_pending s) (Some tid)
+        | None => s                                                          (* "Unable to find level item" *)
+        end
+      else s
   | LStep tid =>
       match nget tid (c_threads s) with
-      | Some t => let '(w, h, t') := d_step (c_world s) (c_heap s) t in mkC w h (nset tid t' (c_threads s)) (c_pending s)
+      | Some t => let '(w, h, t') := d_step (c_world s) (c_heap s) t in
+                  mkC w h (nset tid t' (c_threads s)) (c_pending s) (if d_done t' then None else c_lock s)
       | None => s
       end
   end.
@@ -267,13 +283,13 @@ Definition cnorm (s : cstate) : cstate :=
   let h' := mkHeap nodes (rn (hp_root h)) (map (fun '(k, i) => (k, rn i)) (hp_dm h)) (S (length order)) in
   let threads' := map (fun '(tid, t) => (tid, mkD (map (fun '(i, c) => (rn i, c)) (d_levels t))
                                                   (option_map rn (d_top t)) (d_deleted t) (d_final t) (d_done t))) threads in
-  mkC (c_world s) h' threads' (c_pending s).
+  mkC (c_world s) h' threads' (c_pending s) (c_lock s).
 
 (** the trace of system calls is not part of the comparable state *)
-Definition cforget (s : cstate) : cstate := mkC (mkW (wfs (c_world s)) []) (c_heap s) (c_threads s) (c_pending s).
+Definition cforget (s : cstate) : cstate := mkC (mkW (wfs (c_world s)) []) (c_heap s) (c_threads s) (c_pending s) (c_lock s).
 
 Definition cinit (root : list byte) : cstate :=
-  cnorm (mkC (init_world root) (hinit (init_world root) root) [] []).
+  cnorm (mkC (init_world root) (hinit (init_world root) root) [] [] None).
 
 Definition nstep (root : list byte) (s : cstate) (l : label) : cstate := cnorm (run_label root s l).
 
